@@ -254,8 +254,8 @@ fn args_for(rng: &mut Rng, d: &DeclSpec, pay: Payloads) -> Vec<Vec<u8>> {
 
 pub fn fail_code(rng: &mut Rng) -> i16 {
     if rng.chance(1, 6) {
-        // the handler raises one of the library's standard errors
-        return *rng.pick(&[-200i16, -220, -221, -222, -224, -240, -400]);
+        // the handler raises one of the library's standard errors, or Custom(0, "")
+        return *rng.pick(&[-200i16, -220, -221, -222, -224, -240, -400, 0]);
     }
     // unique-looking device specific codes, away from the standard numbers
     (1000 + rng.below(20000)) as i16 * if rng.chance(1, 2) { 1 } else { -1 }
@@ -319,7 +319,7 @@ pub fn valid_msg(rng: &mut Rng, m: &Model, o: &MsgOpts) -> Msg {
     // white space in front of the first unit is allowed (and skipped) by the syntax
     let lead = if o.blank && rng.chance(1, 8) { vec![*rng.pick(b" \t"); rng.range(1, 3)] } else { vec![] };
     // ... and so is white space in front of the terminator (the CR of CR LF among it)
-    let trail: Vec<u8> = if o.blank && rng.chance(1, 10) { rng.pick(&[&b"\r"[..], b" ", b" \r", b"\t"]).to_vec() } else { vec![] };
+    let trail: Vec<u8> = if o.blank && rng.chance(1, 10) { rng.pick(&[&b"\r"[..], b" ", b" \r", b"\t", b"\x0b", b"\x0c", b"\x01", b"\x0b\r", b"  \x0b"]).to_vec() } else { vec![] };
     Msg { units, semi: o.blank && rng.chance(1, 8), lead, trail }
 }
 
@@ -355,7 +355,25 @@ fn wrong_kind_literal(rng: &mut Rng, p: P) -> Vec<u8> {
         P::F32 | P::F64 => rng.pick(&["\"1.5\"", "ABC", "#12ab", "#HFF"]).as_bytes().to_vec(),
         _ => {
             let (lo, hi) = int_range(p).unwrap();
-            match rng.below(5) {
+            match rng.below(8) {
+                // just beyond the type's range, and just beyond 64 bits, in #H / #Q / #B notation
+                5 => {
+                    let v = (hi + 1 + rng.below(3) as i128) as u128;
+                    match rng.below(3) {
+                        0 => format!("#H{v:X}").into_bytes(),
+                        1 => format!("#Q{v:o}").into_bytes(),
+                        _ => format!("#B{v:b}").into_bytes(),
+                    }
+                }
+                6 | 7 => {
+                    let v = (1u128 << 64) + rng.below(200) as u128 + if rng.chance(1, 2) { (rng.below(6) as u128) << 64 } else { 0 };
+                    match rng.below(4) {
+                        0 => format!("#H{v:X}").into_bytes(),
+                        1 => format!("#Q{v:o}").into_bytes(),
+                        2 => format!("#B{v:b}").into_bytes(),
+                        _ => v.to_string().into_bytes(),
+                    }
+                }
                 0 => (hi + 1).to_string().into_bytes(),
                 1 => (lo - 1).to_string().into_bytes(),
                 2 => b"\"7\"".to_vec(),
